@@ -362,10 +362,11 @@ namespace gtry {
 	void BaseBitVector::assign(std::int64_t value, Expansion policy)
 	{
 		size_t width;
+		// unsigned arithmetic: value + 1 overflows for INT64_MAX and ~value + 1 for INT64_MIN
 		if (value >= 0)
-			width = utils::Log2C(value + 1)+1;
+			width = utils::Log2C(std::uint64_t(value) + 1)+1;
 		else
-			width = utils::Log2C(~value + 1)+1;
+			width = utils::Log2C(~std::uint64_t(value) + 1)+1;
 
 		auto* constant = DesignScope::createNode<hlim::Node_Constant>(
 			sim::parseBitVector(uint64_t(value), width),
